@@ -19,6 +19,9 @@ pub struct FloatFmt<T> {
     pub required_exponent_sign: bool,
     pub no_positive_mantissa_sign: bool,
     pub no_special: bool,
+    pub sep: u8,
+    pub prefix: u8,
+    pub suffix: u8,
     pub write: fn(T, &mut [u8], &WriteFloatOptions) -> usize,
     pub bufsize: fn(&WriteFloatOptions) -> usize,
     pub parse: fn(&[u8], &ParseFloatOptions) -> PRes<T>,
@@ -81,6 +84,9 @@ macro_rules! float_fmt {
             required_exponent_sign: nf.required_exponent_sign(),
             no_positive_mantissa_sign: nf.no_positive_mantissa_sign(),
             no_special: nf.no_special(),
+            sep: nf.digit_separator(),
+            prefix: nf.base_prefix(),
+            suffix: nf.base_suffix(),
             write: w::<$t>,
             bufsize: bs::<$t>,
             parse: p::<$t>,
